@@ -40,7 +40,13 @@ var bad2 = []string{
 	"AV:A/AC:M/Au:S/C:P/I:C/E:POC/RL:TF/RC:UR",
 }
 
-const tmpl = "{{.Vector}} {{.EnvironmentalScore}} {{.SeverityName}}={{.SeverityValue}} {{.BaseReport.Vector}} {{.MAVName}}={{.MAVValue}} {{.TemporalReport.SeverityValue}}"
+// one template text per thread slot (a cache of parsed templates shared between exports must not
+// mix them up)
+var tmpls = []string{
+	"{{.Vector}} {{.EnvironmentalScore}} {{.SeverityName}}={{.SeverityValue}} {{.BaseReport.Vector}} {{.MAVName}}={{.MAVValue}} {{.TemporalReport.SeverityValue}}",
+	"{{with .TemporalReport}}{{.Vector}} {{.TemporalScore}}{{end}}|{{.CRName}}={{.CRValue}}|{{if .MSValue}}{{.MSName}}{{end}} {{.BaseScore}}",
+	"{{define \"row\"}}[{{.}}]{{end}}{{template \"row\" .AVValue}}{{template \"row\" .MAValue}} {{.Version}} {{.EnvironmentalScore | printf \"%6s\"}}",
+}
 
 // Env holds the objects of one execution.
 type Env struct {
@@ -101,8 +107,8 @@ func errStr(err error) string {
 
 func export(rep interface {
 	ExportWithString(string) (io.Reader, error)
-}) string {
-	r, err := rep.ExportWithString(tmpl)
+}, slot int) string {
+	r, err := rep.ExportWithString(tmpls[slot%len(tmpls)])
 	if err != nil {
 		return "error: " + err.Error()
 	}
@@ -156,7 +162,7 @@ var Ops = []Op{
 	}},
 	{"v3 report + ExportWithString", true, func(e *Env, slot int) func() string {
 		return func() string {
-			return export(report.NewEnvironmental(e.E3[slot], report.WithOptionsLanguage(language.Japanese)))
+			return export(report.NewEnvironmental(e.E3[slot], report.WithOptionsLanguage(language.Japanese)), slot)
 		}
 	}},
 	{"v2 decode accepted", false, func(e *Env, slot int) func() string {
